@@ -29,6 +29,12 @@
 (*   DevCapCheckThenAct  AddPeer inserts without re-checking the cap under *)
 (*                       the lock of the insert -- THIS IS THE CODE AS IT  *)
 (*                       IS; PeerCaps fails (cfg Limits_conn_impl).        *)
+(*   DevSweepOnce        Run closes the peers that are in s.peers at the ONE    *)
+(*                       moment its teardown runs; addPeer still inserts        *)
+(*                       afterwards -- THIS IS THE CODE AS IT IS; a peer added  *)
+(*                       between Close's `l.Close()` and `tg.Stop()` is never   *)
+(*                       closed and Stop waits for its runPeer for as long as   *)
+(*                       the remote likes (StopReturns fails, Limits_conn_sweep)*)
 (*   DevLeakOnTgFail     a handler refused by the stopped group forgets to *)
 (*                       return its slots (NoSlotLeak fails).  Self-test.  *)
 (*   DevDropOnPeerFull   a full per-peer semaphore drops instead of        *)
@@ -50,7 +56,7 @@ CONSTANTS
     Threads,        \* plain users of the thread group
     WithRun,        \* TRUE: Syncer.Run is a member of the group and tears the peers down on Stop
     AllowDisconnect,\* TRUE: a peer may hang up at any moment
-    DevCapCheckThenAct, DevLeakOnTgFail, DevDropOnPeerFull, DevAddUnlocked
+    DevCapCheckThenAct, DevSweepOnce, DevLeakOnTgFail, DevDropOnPeerFull, DevAddUnlocked
 
 VARIABLES
     lim,         \* [maxInflight, maxSubnet, maxIn, maxOut, sub : Peers -> Subnets]
@@ -61,14 +67,16 @@ VARIABLES
     gone,        \* per peer: the peer hung up
     tgLive,      \* threadgroup: WaitGroup counter
     stop,        \* "no" | "closed" (closed channel closed) | "waiting" (wg.Wait) | "returned"
-    peersClosed, \* Run's teardown has closed every peer
+    lclosed,     \* the listener is closed (first statement of Syncer.Close)
+    peersClosed, \* Run's teardown has run: it closed every peer that was in s.peers at that moment
+    dead,        \* per connection attempt: its transport was closed by that teardown
     runLive,     \* 1 while Syncer.Run is a member of the group
     conn,        \* per connection attempt: "idle","checked","shaken","peer","running","rejected","closed"
     th,          \* per thread: "idle","chk","live","done","refused"
     act
 
-vars == <<lim, st, out, sem, sub, loopOn, gone, tgLive, stop, peersClosed, runLive, conn, th, act>>
-view == <<lim, st, out, sem, sub, loopOn, gone, tgLive, stop, peersClosed, runLive, conn, th>>
+vars == <<lim, st, out, sem, sub, loopOn, gone, tgLive, stop, lclosed, peersClosed, dead, runLive, conn, th, act>>
+view == <<lim, st, out, sem, sub, loopOn, gone, tgLive, stop, lclosed, peersClosed, dead, runLive, conn, th>>
 
 RpcIds == 1..NRpc
 Conns == InConns \cup OutConns
@@ -104,7 +112,8 @@ TypeOK ==
     /\ loopOn \in [Peers -> BOOLEAN] /\ gone \in [Peers -> BOOLEAN]
     /\ tgLive \in Nat
     /\ stop \in {"no", "closed", "waiting", "returned"}
-    /\ peersClosed \in BOOLEAN /\ runLive \in {0, 1}
+    /\ peersClosed \in BOOLEAN /\ lclosed \in BOOLEAN /\ runLive \in {0, 1}
+    /\ dead \in [Conns -> BOOLEAN]
     /\ conn \in [Conns -> {"idle", "checked", "shaken", "peer", "running", "rejected", "closed"}]
     /\ th \in [Threads -> {"idle", "chk", "live", "done", "refused"}]
 
@@ -119,7 +128,8 @@ InitState(l) ==
     /\ runLive = IF WithRun THEN 1 ELSE 0
     /\ tgLive = Cardinality(Peers) + runLive      \* every runPeer joined the group when it started; so did Run
     /\ stop = "no"
-    /\ peersClosed = FALSE
+    /\ peersClosed = FALSE /\ lclosed = FALSE
+    /\ dead = [c \in Conns |-> FALSE]
     /\ conn = [c \in Conns |-> "idle"]
     /\ th = [t \in Threads |-> "idle"]
     /\ act = Lbl("Init", "", 0)
@@ -137,7 +147,7 @@ Arrive(p, r) ==
     /\ G_Arrive(p, r)
     /\ st' = [st EXCEPT ![p][r] = "arrived"]
     /\ act' = Lbl("Arrive", p, r)
-    /\ UNCHANGED <<lim, out, sem, sub, loopOn, gone, tgLive, stop, peersClosed, runLive, conn, th>>
+    /\ UNCHANGED <<lim, out, sem, sub, loopOn, gone, tgLive, stop, lclosed, peersClosed, dead, runLive, conn, th>>
 
 \* `inflight <- struct{}{}` : BLOCKS while the semaphore is full (not enabled).  After Stop the select may
 \* still take this branch (Go picks at random among ready cases), so `stop` is not consulted.
@@ -155,7 +165,7 @@ AcquirePeer(p) ==
                    /\ out' = [out EXCEPT ![p][r] = "droppeer"]
                    /\ sem' = sem
          /\ act' = Lbl("AcquirePeer", p, r)
-    /\ UNCHANGED <<lim, sub, loopOn, gone, tgLive, stop, peersClosed, runLive, conn, th>>
+    /\ UNCHANGED <<lim, sub, loopOn, gone, tgLive, stop, lclosed, peersClosed, dead, runLive, conn, th>>
 
 \* acquireInflight: non-blocking; failure = `<-inflight; stream.Close(); continue`
 G_AcquireSubnet(p) == loopOn[p] /\ \E r \in RpcIds : st[p][r] = "gotpeer"
@@ -173,7 +183,7 @@ AcquireSubnet(p) ==
                 /\ sem' = [sem EXCEPT ![p] = @ - 1]
                 /\ sub' = sub
                 /\ act' = Lbl("DropSubnet", p, r)
-    /\ UNCHANGED <<lim, loopOn, gone, tgLive, stop, peersClosed, runLive, conn, th>>
+    /\ UNCHANGED <<lim, loopOn, gone, tgLive, stop, lclosed, peersClosed, dead, runLive, conn, th>>
 
 \* `go func() { ... }()`
 G_Spawn(p) == loopOn[p] /\ \E r \in RpcIds : st[p][r] = "gotsub"
@@ -182,7 +192,7 @@ Spawn(p) ==
     /\ LET r == TheOne({x \in RpcIds : st[p][x] = "gotsub"}) IN
          /\ st' = [st EXCEPT ![p][r] = "spawned"]
          /\ act' = Lbl("Spawn", p, r)
-    /\ UNCHANGED <<lim, out, sem, sub, loopOn, gone, tgLive, stop, peersClosed, runLive, conn, th>>
+    /\ UNCHANGED <<lim, out, sem, sub, loopOn, gone, tgLive, stop, lclosed, peersClosed, dead, runLive, conn, th>>
 
 \* handler goroutine: s.tg.Add(); refused after Stop -> the two deferred releases run
 G_TgAdd(p, r) == st[p][r] = "spawned"
@@ -197,16 +207,17 @@ TgAdd(p, r) ==
               /\ out' = [out EXCEPT ![p][r] = "rejected"]
               /\ tgLive' = tgLive
               /\ act' = Lbl("TgRefuse", p, r)
-    /\ UNCHANGED <<lim, sem, sub, loopOn, gone, stop, peersClosed, runLive, conn, th>>
+    /\ UNCHANGED <<lim, sem, sub, loopOn, gone, stop, lclosed, peersClosed, dead, runLive, conn, th>>
 
-\* the handler returns (the response is written unless the transport is already dead)
+\* the handler returns (the response is written unless the transport is already dead: the peer hung up, Run
+\* closed it, or runPeer returned -- the accepting goroutine closes the connection when runPeer returns)
 G_Handle(p, r) == st[p][r] = "handling"
 Handle(p, r) ==
     /\ G_Handle(p, r)
     /\ st' = [st EXCEPT ![p][r] = "exited"]
-    /\ out' = [out EXCEPT ![p][r] = IF peersClosed \/ gone[p] THEN "lost" ELSE "answered"]
+    /\ out' = [out EXCEPT ![p][r] = IF peersClosed \/ gone[p] \/ ~loopOn[p] THEN "lost" ELSE "answered"]
     /\ act' = Lbl("Handle", p, r)
-    /\ UNCHANGED <<lim, sem, sub, loopOn, gone, tgLive, stop, peersClosed, runLive, conn, th>>
+    /\ UNCHANGED <<lim, sem, sub, loopOn, gone, tgLive, stop, lclosed, peersClosed, dead, runLive, conn, th>>
 
 \* deferred calls run LIFO: stream.Close, done() -- the group is left BEFORE the slots are returned
 G_HandleDone(p, r) == st[p][r] = "exited"
@@ -215,7 +226,7 @@ HandleDone(p, r) ==
     /\ st' = [st EXCEPT ![p][r] = "ending"]
     /\ tgLive' = tgLive - 1
     /\ act' = Lbl("HandleDone", p, r)
-    /\ UNCHANGED <<lim, out, sem, sub, loopOn, gone, stop, peersClosed, runLive, conn, th>>
+    /\ UNCHANGED <<lim, out, sem, sub, loopOn, gone, stop, lclosed, peersClosed, dead, runLive, conn, th>>
 
 G_ReleaseSubnet(p, r) == st[p][r] = "ending"
 ReleaseSubnet(p, r) ==
@@ -223,7 +234,7 @@ ReleaseSubnet(p, r) ==
     /\ st' = [st EXCEPT ![p][r] = "relsub"]
     /\ sub' = IF SubnetOn THEN [sub EXCEPT ![SubnetOf(p)] = @ - 1] ELSE sub
     /\ act' = Lbl("ReleaseSubnet", p, r)
-    /\ UNCHANGED <<lim, out, sem, loopOn, gone, tgLive, stop, peersClosed, runLive, conn, th>>
+    /\ UNCHANGED <<lim, out, sem, loopOn, gone, tgLive, stop, lclosed, peersClosed, dead, runLive, conn, th>>
 
 G_ReleasePeer(p, r) == st[p][r] = "relsub"
 ReleasePeer(p, r) ==
@@ -231,7 +242,7 @@ ReleasePeer(p, r) ==
     /\ st' = [st EXCEPT ![p][r] = "final"]
     /\ sem' = [sem EXCEPT ![p] = @ - 1]
     /\ act' = Lbl("ReleasePeer", p, r)
-    /\ UNCHANGED <<lim, out, sub, loopOn, gone, tgLive, stop, peersClosed, runLive, conn, th>>
+    /\ UNCHANGED <<lim, out, sub, loopOn, gone, tgLive, stop, lclosed, peersClosed, dead, runLive, conn, th>>
 
 \* runPeer returns: at the select (`<-s.tg.Done()`) once Stop has begun, or at acceptRPC once the transport
 \* is dead (peer hung up / Run closed the peers).  Deliberately permissive about which of the two.
@@ -241,7 +252,7 @@ LoopExit(p) ==
     /\ loopOn' = [loopOn EXCEPT ![p] = FALSE]
     /\ tgLive' = tgLive - 1
     /\ act' = Lbl("LoopExit", p, 0)
-    /\ UNCHANGED <<lim, st, out, sem, sub, gone, stop, peersClosed, runLive, conn, th>>
+    /\ UNCHANGED <<lim, st, out, sem, sub, gone, stop, lclosed, peersClosed, dead, runLive, conn, th>>
 
 \* a stream that arrived but was never taken dies with the connection
 G_Abandon(p, r) == st[p][r] = "arrived" /\ ~loopOn[p]
@@ -250,46 +261,55 @@ Abandon(p, r) ==
     /\ st' = [st EXCEPT ![p][r] = "final"]
     /\ out' = [out EXCEPT ![p][r] = "dropshut"]
     /\ act' = Lbl("Abandon", p, r)
-    /\ UNCHANGED <<lim, sem, sub, loopOn, gone, tgLive, stop, peersClosed, runLive, conn, th>>
+    /\ UNCHANGED <<lim, sem, sub, loopOn, gone, tgLive, stop, lclosed, peersClosed, dead, runLive, conn, th>>
 
 G_Disconnect(p) == AllowDisconnect /\ ~gone[p]
 Disconnect(p) ==
     /\ G_Disconnect(p)
     /\ gone' = [gone EXCEPT ![p] = TRUE]
     /\ act' = Lbl("Disconnect", p, 0)
-    /\ UNCHANGED <<lim, st, out, sem, sub, loopOn, tgLive, stop, peersClosed, runLive, conn, th>>
+    /\ UNCHANGED <<lim, st, out, sem, sub, loopOn, tgLive, stop, lclosed, peersClosed, dead, runLive, conn, th>>
 
 -----------------------------------------------------------------------------
 (* thread group, Run *)
 
-G_StopBegin == stop = "no"
+\* Syncer.Close is `s.l.Close(); s.tg.Stop()`: two statements, anything may run in between
+G_CloseListener == WithRun /\ ~lclosed /\ stop = "no"
+CloseListener ==
+    /\ G_CloseListener
+    /\ lclosed' = TRUE
+    /\ act' = Lbl("CloseListener", "", 0)
+    /\ UNCHANGED <<lim, st, out, sem, sub, loopOn, gone, tgLive, stop, peersClosed, dead, runLive, conn, th>>
+
+G_StopBegin == stop = "no" /\ (WithRun => lclosed)
 StopBegin ==
     /\ G_StopBegin
     /\ stop' = "closed"
     /\ act' = Lbl("StopBegin", "", 0)
-    /\ UNCHANGED <<lim, st, out, sem, sub, loopOn, gone, tgLive, peersClosed, runLive, conn, th>>
+    /\ UNCHANGED <<lim, st, out, sem, sub, loopOn, gone, tgLive, lclosed, peersClosed, dead, runLive, conn, th>>
 
 G_StopWait == stop = "closed"
 StopWait ==
     /\ G_StopWait
     /\ stop' = "waiting"
     /\ act' = Lbl("StopWait", "", 0)
-    /\ UNCHANGED <<lim, st, out, sem, sub, loopOn, gone, tgLive, peersClosed, runLive, conn, th>>
+    /\ UNCHANGED <<lim, st, out, sem, sub, loopOn, gone, tgLive, lclosed, peersClosed, dead, runLive, conn, th>>
 
 G_StopReturn == stop = "waiting" /\ tgLive = 0
 StopReturn ==
     /\ G_StopReturn
     /\ stop' = "returned"
     /\ act' = Lbl("StopReturn", "", 0)
-    /\ UNCHANGED <<lim, st, out, sem, sub, loopOn, gone, tgLive, peersClosed, runLive, conn, th>>
+    /\ UNCHANGED <<lim, st, out, sem, sub, loopOn, gone, tgLive, lclosed, peersClosed, dead, runLive, conn, th>>
 
-\* Syncer.Close closes the listener; acceptLoop fails; Run closes every peer
-G_ClosePeers == WithRun /\ stop # "no" /\ ~peersClosed
+\* the listener is closed; acceptLoop fails; Run's teardown closes every peer that is in s.peers NOW (once)
+G_ClosePeers == WithRun /\ lclosed /\ ~peersClosed
 ClosePeers ==
     /\ G_ClosePeers
     /\ peersClosed' = TRUE
+    /\ dead' = [c \in Conns |-> dead[c] \/ IsPeer(c)]
     /\ act' = Lbl("ClosePeers", "", 0)
-    /\ UNCHANGED <<lim, st, out, sem, sub, loopOn, gone, tgLive, stop, runLive, conn, th>>
+    /\ UNCHANGED <<lim, st, out, sem, sub, loopOn, gone, tgLive, stop, lclosed, runLive, conn, th>>
 
 \* Run waits until s.peers is empty, then leaves the group
 G_RunExit == runLive = 1 /\ peersClosed /\ (\A p \in Peers : ~loopOn[p]) /\ (\A c \in Conns : ~IsPeer(c))
@@ -298,7 +318,7 @@ RunExit ==
     /\ runLive' = 0
     /\ tgLive' = tgLive - 1
     /\ act' = Lbl("RunExit", "", 0)
-    /\ UNCHANGED <<lim, st, out, sem, sub, loopOn, gone, stop, peersClosed, conn, th>>
+    /\ UNCHANGED <<lim, st, out, sem, sub, loopOn, gone, stop, lclosed, peersClosed, dead, conn, th>>
 
 \* plain members: rhp4.Server stream goroutines, the wallet's rebroadcast goroutine, ThreadGroup users
 G_ThAdd(t) == th[t] = "idle"
@@ -309,7 +329,7 @@ ThAdd(t) ==
          ELSE IF DevAddUnlocked
            THEN th' = [th EXCEPT ![t] = "chk"] /\ tgLive' = tgLive /\ act' = Lbl("ThCheck", t, 0)
            ELSE th' = [th EXCEPT ![t] = "live"] /\ tgLive' = tgLive + 1 /\ act' = Lbl("ThAdd", t, 0)
-    /\ UNCHANGED <<lim, st, out, sem, sub, loopOn, gone, stop, peersClosed, runLive, conn>>
+    /\ UNCHANGED <<lim, st, out, sem, sub, loopOn, gone, stop, lclosed, peersClosed, dead, runLive, conn>>
 
 G_ThCommit(t) == th[t] = "chk"      \* deviation only
 ThCommit(t) ==
@@ -317,7 +337,7 @@ ThCommit(t) ==
     /\ th' = [th EXCEPT ![t] = "live"]
     /\ tgLive' = tgLive + 1
     /\ act' = Lbl("ThAdd", t, 0)
-    /\ UNCHANGED <<lim, st, out, sem, sub, loopOn, gone, stop, peersClosed, runLive, conn>>
+    /\ UNCHANGED <<lim, st, out, sem, sub, loopOn, gone, stop, lclosed, peersClosed, dead, runLive, conn>>
 
 G_ThDone(t) == th[t] = "live"
 ThDone(t) ==
@@ -325,7 +345,7 @@ ThDone(t) ==
     /\ th' = [th EXCEPT ![t] = "done"]
     /\ tgLive' = tgLive - 1
     /\ act' = Lbl("ThDone", t, 0)
-    /\ UNCHANGED <<lim, st, out, sem, sub, loopOn, gone, stop, peersClosed, runLive, conn>>
+    /\ UNCHANGED <<lim, st, out, sem, sub, loopOn, gone, stop, lclosed, peersClosed, dead, runLive, conn>>
 
 -----------------------------------------------------------------------------
 (* CONN family *)
@@ -337,17 +357,17 @@ G_AllowCheck(c) ==
     /\ c \in OutConns => \A d \in OutConns : conn[d] \notin {"checked", "shaken"}
 AllowCheck(c) ==
     /\ G_AllowCheck(c)
-    /\ IF stop = "no" /\ CountFor(c) < CapFor(c)
+    /\ IF stop = "no" /\ (c \in InConns => ~lclosed) /\ CountFor(c) < CapFor(c)
          THEN conn' = [conn EXCEPT ![c] = "checked"] /\ tgLive' = tgLive + 1 /\ act' = Lbl("AllowCheck", c, 1)
          ELSE conn' = [conn EXCEPT ![c] = "rejected"] /\ tgLive' = tgLive /\ act' = Lbl("AllowCheck", c, 0)
-    /\ UNCHANGED <<lim, st, out, sem, sub, loopOn, gone, stop, peersClosed, runLive, th>>
+    /\ UNCHANGED <<lim, st, out, sem, sub, loopOn, gone, stop, lclosed, peersClosed, dead, runLive, th>>
 
 G_Handshake(c) == conn[c] = "checked"
 Handshake(c) ==
     /\ G_Handshake(c)
     /\ conn' = [conn EXCEPT ![c] = "shaken"]
     /\ act' = Lbl("Handshake", c, 0)
-    /\ UNCHANGED <<lim, st, out, sem, sub, loopOn, gone, tgLive, stop, peersClosed, runLive, th>>
+    /\ UNCHANGED <<lim, st, out, sem, sub, loopOn, gone, tgLive, stop, lclosed, peersClosed, dead, runLive, th>>
 
 \* the handshake fails (remote hangs up, deadline).  Once the handshake is through the syncer does not notice
 \* a hang-up before runPeer's first acceptRPC, i.e. a "shaken" attempt always proceeds to AddPeer.
@@ -357,16 +377,17 @@ Abort(c) ==
     /\ conn' = [conn EXCEPT ![c] = "closed"]
     /\ tgLive' = tgLive - 1
     /\ act' = Lbl("Abort", c, 0)
-    /\ UNCHANGED <<lim, st, out, sem, sub, loopOn, gone, stop, peersClosed, runLive, th>>
+    /\ UNCHANGED <<lim, st, out, sem, sub, loopOn, gone, stop, lclosed, peersClosed, dead, runLive, th>>
 
-\* addPeer: s.peers[addr] = p under s.mu.  Intended design: the cap is re-checked under this lock.
+\* addPeer: s.peers[addr] = p under s.mu.  Intended design: under this lock the cap is re-checked and nothing
+\* is inserted once Run's teardown has begun.
 G_AddPeer(c) == conn[c] = "shaken"
 AddPeer(c) ==
     /\ G_AddPeer(c)
-    /\ IF ~DevCapCheckThenAct /\ CountFor(c) >= CapFor(c)
+    /\ IF (~DevCapCheckThenAct /\ CountFor(c) >= CapFor(c)) \/ (~DevSweepOnce /\ peersClosed)
          THEN conn' = [conn EXCEPT ![c] = "rejected"] /\ tgLive' = tgLive - 1 /\ act' = Lbl("AddPeer", c, 0)
          ELSE conn' = [conn EXCEPT ![c] = "peer"] /\ tgLive' = tgLive /\ act' = Lbl("AddPeer", c, 1)
-    /\ UNCHANGED <<lim, st, out, sem, sub, loopOn, gone, stop, peersClosed, runLive, th>>
+    /\ UNCHANGED <<lim, st, out, sem, sub, loopOn, gone, stop, lclosed, peersClosed, dead, runLive, th>>
 
 \* runPeer's own tg.Add: refused after Stop -> the peer is removed at once
 G_RunPeer(c) == conn[c] = "peer"
@@ -375,7 +396,7 @@ RunPeer(c) ==
     /\ IF stop = "no"
          THEN conn' = [conn EXCEPT ![c] = "running"] /\ tgLive' = tgLive /\ act' = Lbl("RunPeer", c, 1)
          ELSE conn' = [conn EXCEPT ![c] = "closed"] /\ tgLive' = tgLive - 1 /\ act' = Lbl("RunPeer", c, 0)
-    /\ UNCHANGED <<lim, st, out, sem, sub, loopOn, gone, stop, peersClosed, runLive, th>>
+    /\ UNCHANGED <<lim, st, out, sem, sub, loopOn, gone, stop, lclosed, peersClosed, dead, runLive, th>>
 
 G_RemovePeer(c) == conn[c] = "running"
 RemovePeer(c) ==
@@ -383,7 +404,7 @@ RemovePeer(c) ==
     /\ conn' = [conn EXCEPT ![c] = "closed"]
     /\ tgLive' = tgLive - 1
     /\ act' = Lbl("RemovePeer", c, 0)
-    /\ UNCHANGED <<lim, st, out, sem, sub, loopOn, gone, stop, peersClosed, runLive, th>>
+    /\ UNCHANGED <<lim, st, out, sem, sub, loopOn, gone, stop, lclosed, peersClosed, dead, runLive, th>>
 
 -----------------------------------------------------------------------------
 \* steps the environment decides (when a peer sends, hangs up, when Close is called, when a connection is
@@ -391,10 +412,10 @@ RemovePeer(c) ==
 EnvNext ==
     \/ \E p \in Peers, r \in RpcIds : Arrive(p, r)
     \/ \E p \in Peers : Disconnect(p)
-    \/ StopBegin
+    \/ CloseListener \/ StopBegin
     \/ \E t \in Threads : ThAdd(t)
     \/ \E c \in Conns : AllowCheck(c) \/ Handshake(c)
-    \/ \E c \in Conns : stop = "no" /\ (Abort(c) \/ RemovePeer(c))
+    \/ \E c \in Conns : (stop = "no" /\ Abort(c)) \/ (~dead[c] /\ RemovePeer(c))    \* the remote hangs up
 
 \* steps the system takes on its own; fair (handlers return, threads finish, Run closes the peers)
 InternalNext ==
@@ -404,7 +425,8 @@ InternalNext ==
     \/ StopWait \/ StopReturn \/ ClosePeers \/ RunExit
     \/ \E t \in Threads : ThCommit(t) \/ ThDone(t)
     \/ \E c \in Conns : AddPeer(c) \/ RunPeer(c)
-    \/ \E c \in Conns : stop # "no" /\ (Abort(c) \/ RemovePeer(c))
+    \/ \E c \in Conns : (stop # "no" /\ Abort(c))       \* handshake deadline (ConnectTimeout)
+                       \/ (dead[c] /\ RemovePeer(c))    \* acceptRPC fails on the transport the teardown closed
 
 \* so that TLC's deadlock check flags exactly the states in which something is stuck (a Stop that hangs)
 Terminated ==
@@ -450,8 +472,8 @@ BackPressureNotDrop ==
             \/ out'[p][r] = "dropsub" /\ SubnetOn /\ sub[SubnetOf(p)] >= lim.maxSubnet
             \/ out'[p][r] = "rejected" /\ stop # "no"
             \/ out'[p][r] = "dropshut" /\ ~loopOn[p]
-            \/ out'[p][r] = "lost" /\ (peersClosed \/ gone[p])]_vars
-LoopExitsOnlyOnShutdown == \A p \in Peers : ~loopOn[p] => (stop # "no" \/ gone[p])
+            \/ out'[p][r] = "lost" /\ (peersClosed \/ gone[p] \/ ~loopOn[p])]_vars
+LoopExitsOnlyOnShutdown == \A p \in Peers : ~loopOn[p] => (stop # "no" \/ lclosed \/ gone[p])
 
 \* inbound / outbound peer caps
 PeerCaps == NumIn <= (IF lim.maxIn > 0 THEN lim.maxIn ELSE 0) /\ NumOut <= (IF lim.maxOut > 0 THEN lim.maxOut ELSE 0)
